@@ -243,6 +243,29 @@ pub fn recipe(r: &mut Rng) -> String {
     out
 }
 
+/// A long recipe: many steps, ingredients, references and diagnostics (size thresholds,
+/// pooled buffers, tables that spill or wrap only show on inputs like this).
+pub fn recipe_large(r: &mut Rng) -> String {
+    let mut out = String::new();
+    let mut seen = Vec::new();
+    for _ in 0..r.range(0, 12) {
+        out.push_str(&meta_line(r));
+        out.push('\n');
+    }
+    let steps = *r.pick(&[20usize, 60, 150, 400]);
+    for i in 0..steps {
+        if i % 37 == 36 {
+            out.push_str("== Part ==\n\n");
+        }
+        out.push_str(&step(r, &mut seen));
+        out.push_str("\n\n");
+        if seen.len() > 40 {
+            seen.truncate(20);
+        }
+    }
+    out
+}
+
 /// Hand-written inputs that hit modes, time overrides, front matter, references
 /// and malformed constructs.
 pub const HANDWRITTEN: &[&str] = &[
@@ -373,6 +396,8 @@ pub fn aisle_large(r: &mut Rng) -> String {
     let ncat = *r.pick(&[3usize, 12, 40, 130, 300]);
     let long = r.chance(1, 3);
     let mut id = 0usize;
+    // half of the large files contain exactly one duplicate somewhere
+    let dup_at = if r.chance(1, 2) { Some(r.range(1, 400)) } else { None };
     for c in 0..ncat {
         s.push_str(&format!("[cat {c}]\n"));
         let nl = if r.chance(1, 6) { 0 } else { r.range(1, 5) };
@@ -383,7 +408,11 @@ pub fn aisle_large(r: &mut Rng) -> String {
                     s.push('|');
                 }
                 id += 1;
-                s.push_str(&format!("item {id}"));
+                if Some(id) == dup_at && id > 1 {
+                    s.push_str(&format!("item {}", r.range(1, id - 1)));
+                } else {
+                    s.push_str(&format!("item {id}"));
+                }
                 if long && r.chance(1, 8) {
                     for _ in 0..r.range(20, 300) {
                         s.push('x');
